@@ -5,6 +5,7 @@ import (
 	"math"
 	"os"
 	"strings"
+	"sync"
 	"testing"
 
 	"github.com/buildbarn/bb-storage/pkg/blobstore/local"
@@ -31,6 +32,8 @@ var primes = []int{37, 41, 43, 47, 53, 59, 61, 67, 71, 73, 79, 83, 89, 97, 101, 
 	131, 137, 139, 149, 151, 157, 163, 167, 173, 179, 181, 191, 193, 197, 199, 211, 223, 227, 229, 233, 239, 241, 251}
 
 const maxLiveBlocks = 5
+
+var noteSlowMetrics sync.Once
 
 type blkOff struct {
 	blk int
@@ -175,6 +178,11 @@ func property(t *rapid.T, rec *vstats.Recorder, backend, storageType string) {
 		}
 	}
 	h.audit()
+	if !h.mr.fast {
+		noteSlowMetrics.Do(func() {
+			rec.Note("discard metrics were read through prometheus.DefaultGatherer.Gather(); direct access to the registered collectors was not available")
+		})
+	}
 	if h.mr.fast {
 		if a, b := h.mr.read(), h.mr.gather(); a != b {
 			t.Fatalf("harness: collectors read directly (%+v) disagree with prometheus.DefaultGatherer (%+v)", a, b)
